@@ -428,7 +428,7 @@ var badInts = []string{"abc", "1.5", "12abc", "four"}
 var badIntLists = []string{"17, x", "abc", "17,,y"}
 
 var invalidKinds = []string{"libdefaults-no-equals", "realm-line-no-equals", "domain-line-no-equals", "unpaired-close", "unpaired-close-in-realm",
-	"unterminated-realm", "unterminated-nested-block", "unparsable-boolean", "unparsable-duration", "unparsable-integer", "unparsable-integer-list"}
+	"unterminated-realm", "unterminated-nested-block", "nested-line-no-equals", "unparsable-boolean", "unparsable-duration", "unparsable-integer", "unparsable-integer-list"}
 
 func dropLibKey(m *kc.Model, key string) {
 	out := m.Lib[:0:0]
@@ -445,7 +445,7 @@ func invalidOpts(kind string) genOpts {
 	switch kind {
 	case "realm-line-no-equals", "unterminated-realm", "unpaired-close-in-realm":
 		return genOpts{needRealm: true}
-	case "unterminated-nested-block":
+	case "unterminated-nested-block", "nested-line-no-equals":
 		return genOpts{needBlock: true}
 	case "unpaired-close":
 		return genOpts{needRealmsSection: true}
@@ -477,6 +477,8 @@ func makeInject(kind string, m *kc.Model, pick func(n int) int) *kc.Inject {
 		return &kc.Inject{Kind: kind, Op: "drop-close", Realm: pick(len(m.Realms))}
 	case "unterminated-nested-block":
 		return &kc.Inject{Kind: kind, Op: "drop-close", Realm: 0, Nested: true}
+	case "nested-line-no-equals":
+		return &kc.Inject{Kind: kind, Op: "insert", Section: "realms", Realm: 0, At: at, Nested: true, Line: noEqRealm[pick(len(noEqRealm))]}
 	case "unparsable-boolean":
 		return valueLine(keysOfKind("bool"), badBools)
 	case "unparsable-duration":
@@ -784,7 +786,7 @@ func invalidGrid(seed uint64) []Case {
 	base := func(kind string) kc.Model {
 		lib := []kc.LibEntry{strEntry("default_realm", "EXAMPLE.COM"), boolEntry("dns_lookup_kdc", false, "false"), boolEntry("rdns", false, "no")}
 		realms := []kc.Realm{baseRealm(), baseRealm2()}
-		if kind == "unterminated-nested-block" {
+		if kind == "unterminated-nested-block" || kind == "nested-line-no-equals" {
 			realms = []kc.Realm{blockRealm, baseRealm2()}
 		}
 		m := modelOf(lib, realms, []kc.Mapping{{Domain: ".example.com", Realm: "EXAMPLE.COM"}, {Domain: "example.com", Realm: "EXAMPLE.COM"}})
